@@ -2,6 +2,7 @@ import YgmVerif.Model.ContainersComm
 import YgmVerif.Props.DistComm
 import YgmVerif.Props.C13
 import YgmVerif.Props.C14
+import YgmVerif.Props.C15
 /-!
 # C13 / C14 end to end over the joint messaging model
 
@@ -409,3 +410,502 @@ end BagExample
 end Bag
 
 end YgmVerif.ContainersComm
+
+/-! ## C15 counting_set over the joint messaging model -/
+
+namespace YgmVerif.CSetComm
+open YgmVerif
+open YgmVerif.Barrier (upd upd_same upd_other b2n)
+open YgmVerif.Cache (csetCfg Frame Phase)
+
+/-! ### the cache of one rank: container calls in progress keep a callback registered -/
+
+def isFall : Frame Nat → Bool
+  | .fall _ _ => true
+  | _ => false
+
+/-- the flush-all loop is entered with no container call active, so its frame is the bottom of the stack -/
+def fallOnlyLast : List (Frame Nat) → Bool
+  | [] => true
+  | [_] => true
+  | f :: g :: rest => !isFall f && fallOnlyLast (g :: rest)
+
+def hasFall (st : List (Frame Nat)) : Bool := st.any isFall
+
+/-- callbacks the cache needs the communicator to hold for it: one if the flag says "registered", one for the
+continuation of a flush-all loop in progress -/
+def owed (s : Cache.St Nat) : Nat := b2n s.reg + b2n (hasFall s.stack)
+
+/-- a container call in progress implies a registered callback or a flush-all loop in progress -/
+def KInv (s : Cache.St Nat) : Prop :=
+  fallOnlyLast s.stack = true ∧ (s.stack ≠ [] → s.reg = true ∨ hasFall s.stack = true)
+
+theorem kinv_init : KInv (Cache.St.init : Cache.St Nat) := ⟨rfl, fun h => absurd rfl h⟩
+
+theorem isFall_setPhase (f : Frame Nat) (ph : Phase Nat) : isFall (f.setPhase ph) = isFall f := by
+  cases f <;> rfl
+
+theorem insLoop_notFall (cfg : Cache.Cfg Nat) (c : Cache.CMap Nat) (k v : Nat) :
+    isFall (Cache.insLoop cfg c k v).2 = false := by
+  unfold Cache.insLoop Cache.enter
+  split
+  · split <;> rfl
+  · split
+    · split <;> rfl
+    · rfl
+
+theorem fallLoop_isFall (cfg : Cache.Cfg Nat) (c : Cache.CMap Nat) (i : Nat) :
+    isFall (Cache.fallLoop cfg c i).2 = true := by
+  unfold Cache.fallLoop
+  split
+  · rfl
+  · split <;> rfl
+
+theorem fol_replace {f f' : Frame Nat} (rest : List (Frame Nat)) (h : isFall f' = isFall f) :
+    fallOnlyLast (f' :: rest) = fallOnlyLast (f :: rest) := by
+  cases rest with
+  | nil => rfl
+  | cons g rest => simp [fallOnlyLast, h]
+
+theorem fol_cons_nonfall {f : Frame Nat} (st : List (Frame Nat)) (h : isFall f = false) :
+    fallOnlyLast (f :: st) = fallOnlyLast st := by
+  cases st with
+  | nil => rfl
+  | cons g rest => simp [fallOnlyLast, h]
+
+theorem fol_cons_fall {f : Frame Nat} {st : List (Frame Nat)} (h : isFall f = true)
+    (hf : fallOnlyLast (f :: st) = true) : st = [] := by
+  cases st with
+  | nil => rfl
+  | cons g rest => simp [fallOnlyLast, h] at hf
+
+theorem fol_tail {f : Frame Nat} {st : List (Frame Nat)} (hf : fallOnlyLast (f :: st) = true) :
+    fallOnlyLast st = true := by
+  cases st with
+  | nil => rfl
+  | cons g rest => simp [fallOnlyLast] at hf; exact hf.2
+
+theorem hasFall_cons (f : Frame Nat) (st : List (Frame Nat)) : hasFall (f :: st) = (isFall f || hasFall st) := by
+  simp [hasFall]
+
+/-- what one cache step does to the flag and to the frame kinds (counting_set configuration) -/
+theorem step_kinv (ns : Nat) (s s' : Cache.St Nat) (lab : Cache.Label Nat) (hk : KInv s)
+    (h : Cache.step (csetCfg ns) s lab = some s') :
+    KInv s' ∧
+    (match lab with
+     | .ins _ _ => s'.reg = true ∧ hasFall s'.stack = hasFall s.stack
+     | .fb => s.reg = true ∧ hasFall s.stack = false ∧ s'.reg = false ∧ hasFall s'.stack = true
+     | .fe => s'.reg = s.reg ∧ hasFall s.stack = true ∧ hasFall s'.stack = false
+     | _ => s'.reg = s.reg ∧ hasFall s'.stack = hasFall s.stack) := by
+  obtain ⟨hf, hj⟩ := hk
+  cases lab with
+  | ins k v =>
+    simp only [Cache.step] at h
+    split at h
+    · have : (csetCfg ns).isOwner k = false := rfl
+      simp only [this, Bool.false_eq_true, if_false] at h
+      have hnf := insLoop_notFall (csetCfg ns) s.cache k v
+      cases hil : Cache.insLoop (csetCfg ns) s.cache k v with
+      | mk c f =>
+        rw [hil] at h hnf
+        simp only [Option.some.injEq] at h
+        subst h
+        simp only at hnf ⊢
+        refine ⟨⟨by rw [fol_cons_nonfall _ hnf]; exact hf, fun _ => Or.inl rfl⟩, trivial, ?_⟩
+        rw [hasFall_cons, hnf]; rfl
+    · cases h
+  | pack =>
+    simp only [Cache.step] at h
+    split at h
+    · rename_i f rest hst
+      split at h
+      · simp only [Option.some.injEq] at h
+        subst h
+        simp only [hst] at hf hj ⊢
+        have e := isFall_setPhase f Phase.sent
+        refine ⟨⟨by rw [fol_replace rest e]; exact hf, fun _ => ?_⟩, trivial, ?_⟩
+        · have := hj (by simp)
+          rw [hasFall_cons] at this ⊢
+          rw [e]; exact this
+        · rw [hasFall_cons, hasFall_cons, e]
+      · cases h
+    · cases h
+  | ret =>
+    simp only [Cache.step] at h
+    split at h
+    · rename_i k v rest hst
+      have hnf := insLoop_notFall (csetCfg ns) s.cache k v
+      cases hil : Cache.insLoop (csetCfg ns) s.cache k v with
+      | mk c f =>
+        rw [hil] at h hnf
+        simp only [Option.some.injEq] at h
+        subst h
+        simp only [hst] at hf hj ⊢
+        simp only at hnf
+        have e : isFall f = isFall (Frame.ins k v Phase.sent) := by rw [hnf]; rfl
+        refine ⟨⟨by rw [fol_replace rest e]; exact hf, fun _ => ?_⟩, trivial, ?_⟩
+        · have := hj (by simp)
+          rw [hasFall_cons] at this ⊢
+          rw [e]; exact this
+        · rw [hasFall_cons, hasFall_cons, e]
+    · rename_i rest hst
+      simp only [Option.some.injEq] at h
+      subst h
+      simp only [hst] at hf hj ⊢
+      have e : isFall (Frame.tail Phase.fin : Frame Nat) = isFall (Frame.tail Phase.sent) := rfl
+      refine ⟨⟨by rw [fol_replace rest e]; exact hf, fun _ => ?_⟩, trivial, ?_⟩
+      · have := hj (by simp)
+        rw [hasFall_cons] at this ⊢
+        rw [e]; exact this
+      · rw [hasFall_cons, hasFall_cons, e]
+    · rename_i i rest hst
+      have hfl := fallLoop_isFall (csetCfg ns) s.cache i
+      cases hil : Cache.fallLoop (csetCfg ns) s.cache i with
+      | mk c f =>
+        rw [hil] at h hfl
+        simp only [Option.some.injEq] at h
+        subst h
+        simp only [hst] at hf hj ⊢
+        simp only at hfl
+        have e : isFall f = isFall (Frame.fall i Phase.sent) := by rw [hfl]; rfl
+        refine ⟨⟨by rw [fol_replace rest e]; exact hf, fun _ => ?_⟩, trivial, ?_⟩
+        · have := hj (by simp)
+          rw [hasFall_cons] at this ⊢
+          rw [e]; exact this
+        · rw [hasFall_cons, hasFall_cons, e]
+    · cases h
+  | done =>
+    simp only [Cache.step] at h
+    split at h
+    · rename_i rest hst
+      simp only [Option.some.injEq] at h
+      subst h
+      simp only [hst] at hf hj ⊢
+      refine ⟨⟨fol_tail hf, fun _ => ?_⟩, trivial, ?_⟩
+      · have := hj (by simp)
+        rw [hasFall_cons] at this
+        simpa [isFall] using this
+      · rw [hasFall_cons]; rfl
+    · cases h
+  | fb =>
+    simp only [Cache.step] at h
+    split at h
+    · rename_i hc
+      have hfl := fallLoop_isFall (csetCfg ns) s.cache 0
+      cases hil : Cache.fallLoop (csetCfg ns) s.cache 0 with
+      | mk c f =>
+        rw [hil] at h hfl
+        simp only [Option.some.injEq] at h
+        subst h
+        simp only at hfl ⊢
+        have hemp : s.stack = [] := by
+          cases hst : s.stack with
+          | nil => rfl
+          | cons a b => rw [hst] at hc; simp at hc
+        refine ⟨⟨rfl, fun _ => Or.inr ?_⟩, hc.2, by rw [hemp]; rfl, trivial, ?_⟩
+        · rw [hasFall_cons, hfl]; rfl
+        · rw [hasFall_cons, hfl]; rfl
+    · cases h
+  | fe =>
+    simp only [Cache.step] at h
+    split at h
+    · rename_i i rest hst
+      simp only [Option.some.injEq] at h
+      subst h
+      simp only [hst] at hf hj ⊢
+      have hr : rest = [] := fol_cons_fall (f := Frame.fall i Phase.fin) rfl hf
+      subst hr
+      exact ⟨⟨rfl, fun h => absurd rfl h⟩, trivial, rfl, rfl⟩
+    · cases h
+  | bar =>
+    simp only [Cache.step] at h
+    split at h
+    · simp only [Option.some.injEq] at h
+      subst h
+      exact ⟨⟨hf, hj⟩, rfl, rfl⟩
+    · cases h
+
+/-! ### the component histories are recoverable -/
+
+theorem step_some {P : Par} {S S' : St} {l : Label} (h : step P S l = some S') :
+    guard P S l = true ∧ Comm.run P.n P.nh S.c (projC P l) = some S'.c ∧ kStep P S l = some S'.k := by
+  unfold step at h
+  split at h
+  · rename_i hg
+    split at h
+    · rename_i c' k' hc hk
+      cases h
+      exact ⟨hg, hc, hk⟩
+    · cases h
+  · cases h
+
+theorem kStep_cases {P : Par} {S : St} {l : Label} {k' : Nat → Cache.St Nat} (h : kStep P S l = some k') :
+    (projK l = none ∧ k' = S.k) ∨
+    ∃ q lab s', projK l = some (q, lab) ∧ Cache.step (csetCfg P.nslots) (S.k q) lab = some s' ∧ k' = upd S.k q s' := by
+  unfold kStep at h
+  split at h
+  · rename_i hp
+    exact Or.inl ⟨hp, (Option.some.inj h).symm⟩
+  · rename_i q lab hp
+    cases hs : Cache.step (csetCfg P.nslots) (S.k q) lab with
+    | none => rw [hs] at h; cases h
+    | some s' =>
+      rw [hs] at h
+      exact Or.inr ⟨q, lab, s', hp, rfl, (Option.some.inj h).symm⟩
+
+/-- **a joint history is a history of the joint messaging model `Comm`** (so C01, C02ME, C02C01, DistComm apply) -/
+theorem run_projC {P : Par} {S S' : St} (jls : List Label) (h : run P S jls = some S') :
+    Comm.run P.n P.nh S.c (jls.flatMap (projC P)) = some S'.c := by
+  induction jls generalizing S with
+  | nil => simp only [run] at h; cases h; rfl
+  | cons l jls ih =>
+    simp only [run] at h
+    cases hst : step P S l with
+    | none => rw [hst] at h; cases h
+    | some S1 =>
+      rw [hst] at h
+      rw [List.flatMap_cons]
+      exact Comm.run_append _ _ (step_some hst).2.1 (ih h)
+
+theorem projR_cons (r : Nat) (l : Label) (jls : List Label) :
+    projR r (l :: jls) = (match projK l with
+      | some (q, lab) => if q = r then [lab] else []
+      | none => []) ++ projR r jls := by
+  unfold projR
+  rw [List.filterMap_cons]
+  cases projK l with
+  | none => rfl
+  | some p =>
+    obtain ⟨q, lab⟩ := p
+    by_cases hq : q = r <;> simp [hq]
+
+/-- **the history of every rank is a history of the count-cache model `Cache`** (so the C15 theorems apply) -/
+theorem run_projK {P : Par} {S S' : St} (jls : List Label) (h : run P S jls = some S') (r : Nat) :
+    Cache.run (csetCfg P.nslots) (S.k r) (projR r jls) = some (S'.k r) := by
+  induction jls generalizing S with
+  | nil => simp only [run] at h; cases h; rfl
+  | cons l jls ih =>
+    simp only [run] at h
+    cases hst : step P S l with
+    | none => rw [hst] at h; cases h
+    | some S1 =>
+      rw [hst] at h
+      have := ih h
+      rw [projR_cons]
+      rcases kStep_cases (step_some hst).2.2 with ⟨hp, hk⟩ | ⟨q, lab, s', hp, hs, hk⟩
+      · rw [hp, hk] at *
+        simpa using this
+      · rw [hp]
+        by_cases hq : q = r
+        · subst hq
+          rw [hk, upd_same] at this
+          simp only [if_true, List.singleton_append, Cache.run, hs]
+          exact this
+        · rw [hk, upd_other _ _ _ _ (fun e => hq e.symm)] at this
+          simpa [hq] using this
+
+/-! ### what the `Comm` side of a cache label does to the callback counter -/
+
+theorem comm_run_single {n : Nat} {nh : Nat → Nat → Nat} {c c' : Comm.St} {l : Comm.Label}
+    (h : Comm.run n nh c [l] = some c') : Comm.step n nh c l = some c' := by
+  simp only [Comm.run] at h
+  cases hs : Comm.step n nh c l with
+  | none => rw [hs] at h; cases h
+  | some c1 => rw [hs] at h; simpa using h
+
+theorem comm_cbs_allowed {n : Nat} {nh : Nat → Nat → Nat} {c c' : Comm.St} {l : Comm.Label}
+    (ha : allowed l = true) (h : Comm.step n nh c l = some c') : c'.b.cbs = c.b.cbs := by
+  have hB := (Comm.step_some h).2.2.1
+  cases l with
+  | async r uid dest direct => cases ha
+  | regcb r => cases ha
+  | runcb r msgs j => cases ha
+  | isend r hop => simp only [Comm.projB, BarrierME.run] at hB; cases hB; rfl
+  | recvBegin r src seq => simp only [Comm.projB, BarrierME.run] at hB; cases hB; rfl
+  | fwd r uid => simp only [Comm.projB, BarrierME.run] at hB; cases hB; rfl
+  | recvEnd r => simp only [Comm.projB, BarrierME.run] at hB; cases hB; rfl
+  | execBegin r uid =>
+    simp only [Comm.projB, Comm.bRun_single, BarrierME.step] at hB; split at hB <;> cases hB; rfl
+  | execEnd r uid =>
+    simp only [Comm.projB, Comm.bRun_single, BarrierME.step] at hB; split at hB <;> cases hB; rfl
+  | enter r =>
+    simp only [Comm.projB, Comm.bRun_single, BarrierME.step] at hB; split at hB <;> cases hB; rfl
+  | contribute r =>
+    simp only [Comm.projB, Comm.bRun_single, BarrierME.step] at hB; split at hB <;> cases hB; rfl
+  | result r =>
+    simp only [Comm.projB, Comm.bRun_single, BarrierME.step] at hB; split at hB <;> cases hB; rfl
+  | exit r =>
+    simp only [Comm.projB, Comm.bRun_single, BarrierME.step] at hB; split at hB <;> cases hB; rfl
+
+theorem comm_cbs_async {n : Nat} {nh : Nat → Nat → Nat} {c c' : Comm.St} {r uid dest : Nat} {direct : Bool}
+    (h : Comm.step n nh c (.async r uid dest direct) = some c') : c'.b.cbs = c.b.cbs := by
+  have hB := (Comm.step_some h).2.2.1
+  simp only [Comm.projB, Comm.bRun_single, BarrierME.step] at hB; split at hB <;> cases hB; rfl
+
+theorem comm_cbs_regcb {n : Nat} {nh : Nat → Nat → Nat} {c c' : Comm.St} {r : Nat}
+    (h : Comm.step n nh c (.regcb r) = some c') : c'.b.cbs = upd c.b.cbs r (c.b.cbs r + 1) := by
+  have hB := (Comm.step_some h).2.2.1
+  simp only [Comm.projB, Comm.bRun_single, BarrierME.step] at hB; split at hB <;> cases hB; rfl
+
+theorem comm_cbs_runcb {n : Nat} {nh : Nat → Nat → Nat} {c c' : Comm.St} {r j : Nat} {msgs : List Comm.Msg}
+    (h : Comm.step n nh c (.runcb r msgs j) = some c') :
+    0 < c.b.cbs r ∧ c'.b.cbs = upd c.b.cbs r (c.b.cbs r - 1 + j) := by
+  have hB := (Comm.step_some h).2.2.1
+  simp only [Comm.projB, Comm.bRun_single, BarrierME.step] at hB
+  split at hB
+  · rename_i hc
+    cases hB
+    exact ⟨hc.2.1, rfl⟩
+  · cases hB
+
+/-! ### the linking invariant: the communicator holds a callback for every cache that needs one -/
+
+def JInv (S : St) : Prop := ∀ q, KInv (S.k q) ∧ owed (S.k q) ≤ S.c.b.cbs q
+
+theorem jinv_init : JInv init := fun _ => ⟨kinv_init, Nat.le_refl _⟩
+
+theorem b2n_le_one (b : Bool) : b2n b ≤ 1 := by cases b <;> decide
+
+theorem step_jinv {P : Par} {S S' : St} {l : Label} (hi : JInv S) (h : step P S l = some S') : JInv S' := by
+  obtain ⟨hg, hc, hk⟩ := step_some h
+  rcases kStep_cases hk with ⟨hp, hk'⟩ | ⟨q, lab, s', hp, hs, hk'⟩
+  · -- a `Comm` label alone
+    cases l with
+    | comm l0 =>
+      have := comm_cbs_allowed hg (comm_run_single hc)
+      intro q
+      rw [hk', this]; exact hi q
+    | _ => cases hp
+  · obtain ⟨hkq, hrel⟩ := step_kinv P.nslots (S.k q) s' lab (hi q).1 hs
+    have hoq := (hi q).2
+    -- other ranks: cache untouched, counter untouched or only that of `q` changed
+    have other : ∀ x, x ≠ q → S'.k x = S.k x := fun x hx => by rw [hk', upd_other _ _ _ _ hx]
+    have same : S'.k q = s' := by rw [hk', upd_same]
+    cases l with
+    | comm l0 => cases hp
+    | ins r k first =>
+      simp only [projK, Option.some.injEq, Prod.mk.injEq] at hp
+      obtain ⟨rfl, rfl⟩ := hp
+      simp only at hrel
+      simp only [guard, Bool.and_eq_true, decide_eq_true_eq, beq_iff_eq] at hg
+      cases hreg : (S.k r).reg with
+      | true =>
+        have hf : first = false := by rw [hg.2, hreg]; rfl
+        subst hf
+        simp only [projC, Bool.false_eq_true, if_false, Comm.run, Option.some.injEq] at hc
+        intro x
+        by_cases hx : x = r
+        · subst hx
+          rw [same, ← hc]
+          refine ⟨hkq, ?_⟩
+          unfold owed at hoq ⊢
+          rw [hrel.1, hrel.2]; rw [hreg] at hoq; exact hoq
+        · rw [other x hx, ← hc]; exact hi x
+      | false =>
+        have hf : first = true := by rw [hg.2, hreg]; rfl
+        subst hf
+        simp only [projC, if_true] at hc
+        have hcb := comm_cbs_regcb (comm_run_single hc)
+        intro x
+        by_cases hx : x = r
+        · subst hx
+          rw [same, hcb, upd_same]
+          refine ⟨hkq, ?_⟩
+          unfold owed at hoq ⊢
+          rw [hrel.1, hrel.2]; rw [hreg] at hoq
+          simp only [b2n] at hoq ⊢
+          omega
+        · rw [other x hx, hcb, upd_other _ _ _ _ hx]; exact hi x
+    | pack r uid =>
+      simp only [projK, Option.some.injEq, Prod.mk.injEq] at hp
+      obtain ⟨rfl, rfl⟩ := hp
+      simp only at hrel
+      have hcb := comm_cbs_async (comm_run_single hc)
+      intro x
+      by_cases hx : x = r
+      · subst hx
+        rw [same, hcb]
+        refine ⟨hkq, ?_⟩
+        unfold owed at hoq ⊢
+        rw [hrel.1, hrel.2]; exact hoq
+      · rw [other x hx, hcb]; exact hi x
+    | cbpack r uid =>
+      simp only [projK, Option.some.injEq, Prod.mk.injEq] at hp
+      obtain ⟨rfl, rfl⟩ := hp
+      simp only at hrel
+      obtain ⟨hpos, hcb⟩ := comm_cbs_runcb (comm_run_single hc)
+      intro x
+      by_cases hx : x = r
+      · subst hx
+        rw [same, hcb, upd_same]
+        refine ⟨hkq, ?_⟩
+        unfold owed at hoq ⊢
+        rw [hrel.1, hrel.2]; omega
+      · rw [other x hx, hcb, upd_other _ _ _ _ hx]; exact hi x
+    | ret r =>
+      simp only [projK, Option.some.injEq, Prod.mk.injEq] at hp
+      obtain ⟨rfl, rfl⟩ := hp
+      simp only at hrel
+      simp only [projC, Comm.run, Option.some.injEq] at hc
+      intro x
+      by_cases hx : x = r
+      · subst hx
+        rw [same, ← hc]
+        refine ⟨hkq, ?_⟩
+        unfold owed at hoq ⊢
+        rw [hrel.1, hrel.2]; exact hoq
+      · rw [other x hx, ← hc]; exact hi x
+    | done r =>
+      simp only [projK, Option.some.injEq, Prod.mk.injEq] at hp
+      obtain ⟨rfl, rfl⟩ := hp
+      simp only at hrel
+      simp only [projC, Comm.run, Option.some.injEq] at hc
+      intro x
+      by_cases hx : x = r
+      · subst hx
+        rw [same, ← hc]
+        refine ⟨hkq, ?_⟩
+        unfold owed at hoq ⊢
+        rw [hrel.1, hrel.2]; exact hoq
+      · rw [other x hx, ← hc]; exact hi x
+    | fb r =>
+      simp only [projK, Option.some.injEq, Prod.mk.injEq] at hp
+      obtain ⟨rfl, rfl⟩ := hp
+      simp only at hrel
+      obtain ⟨hpos, hcb⟩ := comm_cbs_runcb (comm_run_single hc)
+      intro x
+      by_cases hx : x = r
+      · subst hx
+        rw [same, hcb, upd_same]
+        refine ⟨hkq, ?_⟩
+        unfold owed at hoq ⊢
+        rw [hrel.2.2.1, hrel.2.2.2]; rw [hrel.1, hrel.2.1] at hoq
+        simp only [b2n] at hoq ⊢
+        omega
+      · rw [other x hx, hcb, upd_other _ _ _ _ hx]; exact hi x
+    | fe r =>
+      simp only [projK, Option.some.injEq, Prod.mk.injEq] at hp
+      obtain ⟨rfl, rfl⟩ := hp
+      simp only at hrel
+      obtain ⟨hpos, hcb⟩ := comm_cbs_runcb (comm_run_single hc)
+      intro x
+      by_cases hx : x = r
+      · subst hx
+        rw [same, hcb, upd_same]
+        refine ⟨hkq, ?_⟩
+        unfold owed at hoq ⊢
+        rw [hrel.1, hrel.2.2]; rw [hrel.2.1] at hoq
+        simp only [b2n] at hoq ⊢
+        omega
+      · rw [other x hx, hcb, upd_other _ _ _ _ hx]; exact hi x
+
+theorem run_jinv {P : Par} {S S' : St} (jls : List Label) (hi : JInv S) (h : run P S jls = some S') : JInv S' := by
+  induction jls generalizing S with
+  | nil => simp only [run] at h; cases h; exact hi
+  | cons l jls ih =>
+    simp only [run] at h
+    cases hst : step P S l with
+    | none => rw [hst] at h; cases h
+    | some S1 => rw [hst] at h; exact ih (step_jinv hi hst) h
+
+end YgmVerif.CSetComm
